@@ -33,13 +33,13 @@ def run_shard(ctx, spec):
                max_states=spec.get('max_states'))
     elif spec['w'] == 'walk':
         for k in range(spec['n']):
-            ex.walk(rnd.choice([2, 2, 3, 3, 4]), maxlen=90)
+            ex.walk(rnd.choice([2, 2, 3, 3, 4, 5]), maxlen=rnd.choice([90, 90, 200]), max_reg=rnd.choice([4, 4, 8]))
     else:
         for k in range(spec['n']):
             if k % 3 == 2:
                 ex.jumpoff_scenario(rnd.choice([2, 3, 3, 4]), max_jo=3)
             else:
-                ex.complete(rnd.choice([2, 3, 3, 4]), max_reg=rnd.choice([2, 3, 4]), max_jo=3)
+                ex.complete(rnd.choice([2, 3, 3, 4, 5, 6]), max_reg=rnd.choice([2, 3, 4, 7, 9]), max_jo=3)
     ctx.info['states'] = ex.states
     ctx.info['transitions'] = ex.transitions
     ctx.count('eval.states-expanded', ex.states)
